@@ -231,7 +231,7 @@ package requestmanager
 //@ func RequestManager.ProcessResponses
 //@   lenient
 //@   safety off
-//@   modifies alloc
+//@   modifies alloc, nMsgAccepted
 //@   callsite RequestManager.send: assert cast(arg0, "*processResponsesMessage").blks == blks && cast(arg0, "*processResponsesMessage").p == p
 //@ func processResponsesMessage.handle
 //@   lenient
